@@ -139,12 +139,20 @@ def submission_rules(ctx, m, owners):
 
 
 def step_rules(ctx, m, owner, s):
+    if not queue_rules(ctx, m, owner, s):
+        return
+    loop_rules(ctx, m, owner, s)
+
+
+def queue_rules(ctx, m, owner, s):
+    """the step takes the WHOLE queue, once, and nothing but the shuffle touches the batch before it is processed
+    (shared with C15: the shuffled batch is everything that was queued)"""
     q, f = s.q, s.f
     tag = owner + "::step"
-    if s.take is None or s.T is None:
+    if s.take is None or not s.has_batch():
         ctx.lost("queue", "%s does not empty its instruction queue with mem::take into a local" % tag)
-        return
-    ctx.ok("queue", s.take.loc(), "%s empties self.%s with mem::take into a local batch" % (tag, s.queue_field))
+        return False
+    ctx.ok("queue", s.take.loc(), "%s empties self.%s %s" % (tag, s.queue_field, "by draining it completely in the processing loop" if s.in_place else "with mem::take into a local batch"))
     ctx.check(not s.take.guards and not q.cfg.in_loop(s.take.b), "queue", tag + "|take-once", s.take.loc(), "the queue is taken once, unconditionally")
     if s.take.name == "replace":
         rv = s.take.args[1] if len(s.take.args) > 1 else ("unk",)
@@ -152,9 +160,28 @@ def step_rules(ctx, m, owner, s):
         ctx.check(empty, "queue", tag + "|replace-empty", s.take.loc(), "mem::replace leaves an empty queue behind", "mem::replace puts %s back into the queue" % render(rv))
     qw = [w for w in q.writes(field=s.queue_field) if w.root[0] == "param"]
     ctx.check(not qw, "queue", tag + "|no-refill", ctx.loc(f), "step does not write the queue field again (it stays empty)", "step writes the queue again: %s" % "; ".join(w.text() for w in qw))
+    # "applies exactly the queued instructions": from the take to the loop nothing may add, drop, replace or filter batch elements.
+    # The batch may only be shuffled, measured (len / is_empty) and turned into the loop's iterator.
+    BATCH_READS = ("shuffle", "len", "is_empty", "into_iter", "iter", "enumerate", "zip", "rev", "deref", "deref_mut", "as_slice", "as_mut_slice",
+                   "by_ref", "next", "borrow", "borrow_mut", "as_ref", "as_mut", "drop", "drop_in_place")
+    touching = [x for x in q.calls() if x is not s.take and any(s.mentions_batch(a) for a in x.args)]
+    bad = [x for x in touching if x.name not in BATCH_READS]
+    redefs = []
+    if s.T is not None:
+        redefs = [d for d in q.ev.def_sites().get(s.T, []) if not (d[0] == "c" and d[1] == s.take.b)]
+    ctx.check(not bad and not redefs, "queue", tag + "|batch-intact", bad[0].loc() if bad else ctx.loc(f),
+              "between the take and the loop the batch is only shuffled, measured and iterated (%d uses: %s)" % (len(touching), ", ".join(sorted({x.name for x in touching}))),
+              "the taken batch is passed to %s%s before / while it is processed: instructions can be dropped, added or replaced" % (
+                  ", ".join(sorted({x.name for x in bad})) or "-", "; the batch local is assigned again" if redefs else ""))
     if s.loop_next is None:
         ctx.lost("loop", "%s has no loop iterating the taken batch" % tag)
-        return
+        return False
+    return True
+
+
+def loop_rules(ctx, m, owner, s):
+    q, f = s.q, s.f
+    tag = owner + "::step"
     chain = list(s.chain)
     s.iter_chain(s.loop_next)      # (sets s.zip_partner for this loop)
     enumerated = "enumerate" in chain
@@ -165,7 +192,7 @@ def step_rules(ctx, m, owner, s):
     ctx.check(plain and plain[0] in ("into_iter", "iter") and not [n for n in plain if n in ADAPTERS and n != "rev"]
               and [n for n in plain if n not in ("into_iter", "iter", "rev")] == (["enumerate"] if enumerated else []), "loop", tag + "|adapters", s.loop_next.loc(),
               "the loop iterates the whole taken batch: adapter chain %s" % list(reversed(chain)), "the loop's iterator chain is %s (only rev*, then an optional enumerate or a zip with the unbounded clock range `start..` allowed)" % list(reversed(chain)))
-    loops_over_T = [c for c in q.calls("next") if q.cfg.in_loop(c.b) and (s.iter_chain(c) or [None])[-1] == ("local", s.T)]
+    loops_over_T = [c for c in q.calls("next") if q.cfg.in_loop(c.b) and s.is_batch((s.iter_chain(c) or [None])[-1])]
     ctx.check(len(loops_over_T) == 1, "loop", tag + "|single", ctx.loc(f), "exactly one loop consumes the batch")
     # start time
     ctx.check(len(s.get_time) == 1 and not s.get_time[0].guards and q.body.dominates(s.get_time[0].b, s.head), "clock", tag + "|start", ctx.loc(f),
@@ -212,7 +239,7 @@ def step_rules(ctx, m, owner, s):
               "process_event calls: %s" % "; ".join(c.text() for c in s.process))
     if len(in_loop) == 1 and len(pe) == 1:
         from .stepmodel import benign_batch_guard
-        only_some = lambda c: all((a[0] == "variant" and a[2] == ("Some",)) or benign_batch_guard(a, s.T) for a in c.guards)  # noqa: E731
+        only_some = lambda c: all((a[0] == "variant" and a[2] == ("Some",)) or benign_batch_guard(a, s) for a in c.guards)  # noqa: E731
         ctx.check(only_some(in_loop[0]) and only_some(pe[0]) and q.body.dominates(in_loop[0].b, pe[0].b), "apply", tag + "|every-item", pe[0].loc(),
                   "clock write and process_event run for every item (no other condition), clock first",
                   "per-item processing is conditional: set_time [%s], process_event [%s]" % (in_loop[0].gtext(), pe[0].gtext()))
